@@ -60,11 +60,18 @@ func ApplyClusterChanges(config *model.ClusterConfig, currentStatus *model.Clust
 			ReplicationFactor: nc.ReplicationFactor,
 		}
 
+		// Either every shard of the namespace gets an ensemble or the namespace is not
+		// created now (it is retried on the next config change): a namespace with a hole
+		// in its hash space must never be published.
+		added := make([]int64, 0)
+		serverIdx := newStatus.ServerIdx
+		failed := false
 		for _, shard := range sharding.GenerateShards(newStatus.ShardIdGenerator, nc.InitialShardCount) {
 			var esm []model.Server
 			if esm, err = ensembleSupplier(&nc, newStatus); err != nil {
 				slog.Error("failed to select new ensembles.", slog.Any("shard", shard), slog.Any("error", err))
-				continue
+				failed = true
+				break
 			}
 			shardMetadata := model.ShardMetadata{
 				Status:   model.ShardStatusUnknown,
@@ -80,6 +87,14 @@ func ApplyClusterChanges(config *model.ClusterConfig, currentStatus *model.Clust
 			nss.Shards[shard.Id] = shardMetadata
 			newStatus.ServerIdx = (newStatus.ServerIdx + nc.ReplicationFactor) % uint32(len(config.Servers))
 			shardsToAdd[shard.Id] = nc.Name
+			added = append(added, shard.Id)
+		}
+		if failed {
+			for _, id := range added {
+				delete(shardsToAdd, id)
+			}
+			newStatus.ServerIdx = serverIdx
+			continue
 		}
 		newStatus.Namespaces[nc.Name] = nss
 
